@@ -11,6 +11,7 @@ import (
 	"syscall"
 	"time"
 
+	"github.com/Jigsaw-Code/outline-ss-server/service"
 	"github.com/Jigsaw-Code/outline-ss-server/service/metrics"
 )
 
@@ -42,6 +43,7 @@ type connObs struct {
 	targetDone bool
 	tAccepted  bool
 	badPieces  int
+	writeErrs  int
 }
 
 type board struct {
@@ -124,6 +126,24 @@ func (m *recMetrics) AddProbe(status, drainResult string, n int64) {
 	m.b.update(m.c, func(o *connObs) {
 		o.mlog = append(o.mlog, mrec{M: "Probe", S: status, N: []int64{n}, Drain: drainResult})
 	})
+}
+
+// recServiceMetrics: a service.ServiceMetrics whose AddOpenTCPConnection logs "Open" and returns the recording TCPConnMetrics of
+// the connection (opened-once / closed-once is then judged at the interface the server's wiring layer uses)
+type recServiceMetrics struct {
+	b *board
+	c func(conn net.Conn) int // which model connection this is
+}
+
+func (m *recServiceMetrics) AddOpenTCPConnection(conn net.Conn) service.TCPConnMetrics {
+	c := m.c(conn)
+	m.b.update(c, func(o *connObs) { o.mlog = append(o.mlog, mrec{M: "Open", N: []int64{}}) })
+	return &recMetrics{b: m.b, c: c}
+}
+func (m *recServiceMetrics) AddCipherSearch(proto string, accessKeyFound bool, timeToCipher time.Duration) {
+}
+func (m *recServiceMetrics) AddUDPNatEntry(clientAddr net.Addr, accessKey string) service.UDPConnMetrics {
+	return nil
 }
 
 // ---- stream chopper: cuts an incoming byte stream into the pieces the peer is known to have written -------------
